@@ -537,7 +537,7 @@ func vInfixShape(op pAst.InfixOperator) int {
     ghostat @loop-floor before-each self.pushLoop(Loop{ :: floor = ghost(depth)
     ghostat @floor-restored before-each self.insert(newOneStringInstruction(Opcode_Label, after_label) :: floor = old(ghost(floor))
     assert @no-pending-operands-at-loop-exit before-each self.leaveTryBlocks(self.currLoop().tryDepth, node.Span()) :: ghost(depth) == ghost(floor)
-    assert @no-pending-operands-at-return before self.leaveTryBlocks(0, node.Span()) :: ghost(depth) == b2i(node.ReturnValue != nil && node.ReturnValue.Type().Kind() != ast.NullTypeKind)
+    assert @no-pending-operands-at-return before if node.ReturnValue != nil { :: ghost(depth) == 0
     assumes @loop-bodies-are-of-type-null-or-never (node.Kind() == ast.LoopStatementKind ==> node.(ast.AnalyzedLoopStatement).Body.ResultType.Kind() == ast.NullTypeKind || node.(ast.AnalyzedLoopStatement).Body.ResultType.Kind() == ast.NeverTypeKind) && (node.Kind() == ast.WhileStatementKind ==> node.(ast.AnalyzedWhileStatement).Body.ResultType.Kind() == ast.NullTypeKind || node.(ast.AnalyzedWhileStatement).Body.ResultType.Kind() == ast.NeverTypeKind) && (node.Kind() == ast.ForStatementKind ==> node.(ast.AnalyzedForStatement).Body.ResultType.Kind() == ast.NullTypeKind || node.(ast.AnalyzedForStatement).Body.ResultType.Kind() == ast.NeverTypeKind)
     assert @back-edge-at-the-depth-of-the-head before-each self.insert(newOneStringInstruction(Opcode_Jump, head_label) :: node.Body.ResultType.Kind() == ast.NeverTypeKind || ghost(depth) == old(ghost(depth))
     ghostat @loop-exit before-each self.insert(newOneStringInstruction(Opcode_Label, after_label) :: depth = old(ghost(depth))
